@@ -460,3 +460,69 @@ def probe_filllower():
     w._verif_probe = True
     STATE["attached"].append((RQ.FillLowerRangeQuery2D, "__init__", orig))
     RQ.FillLowerRangeQuery2D.__init__ = w
+
+
+def probe_merge():
+    """merge_breakpoints partition + CoolerMerger epoch disjointness (C06/C07)."""
+    import cooler._reduce as R
+
+    def f_bp(orig):
+        @functools.wraps(orig)
+        def w(indexes, bufsize):
+            res = orig(indexes, bufsize)
+            try:
+                _count("merge_breakpoints")
+                part, cum = res
+                comb = np.zeros(len(indexes[0]))
+                for ix in indexes:
+                    comb = comb + np.asarray(ix[:])
+                nnz = comb[-1]
+                part = np.asarray(part)
+                ok = (len(part) >= 2 and part[0] == 0 and bool(np.all(np.diff(part) > 0))
+                      and part[-1] <= len(comb) - 1 and comb[part[-1]] == nnz
+                      and bool(np.array_equal(np.asarray(cum), comb[part])))
+                if not ok:
+                    pfail("merge_breakpoints", STATE["ctx"].prop if STATE["ctx"] else "C06",
+                          "probe:merge_breakpoints-not-a-partition",
+                          "merge partition is not strictly increasing from 0 up to the row where all records are consumed",
+                          {"partition": part, "cum": cum, "combined_index": comb[:60], "bufsize": bufsize})
+                ctx = STATE["ctx"]
+                if ctx is not None:
+                    ctx.features["merge:epochs>1" if len(part) > 2 else "merge:epochs=1"] += 1
+                    if np.any(np.diff(np.asarray(cum)) == 0):
+                        ctx.features["merge:epoch-with-zero-records"] += 1
+            except Exception as e:
+                pfail("merge_breakpoints", "C06", "probe:merge_breakpoints-error", f"probe error {e!r}")
+            return res
+        return w
+
+    attach([(R, "merge_breakpoints")], f_bp)
+
+    orig_iter = R.CoolerMerger.__iter__
+    if not getattr(orig_iter, "_verif_probe", False):
+        @functools.wraps(orig_iter)
+        def it(self):
+            last = -1
+            nrec = 0
+            for chunk in orig_iter(self):
+                try:
+                    _count("merger_iter")
+                    b1 = np.asarray(chunk["bin1_id"]).astype(np.int64)
+                    b2 = np.asarray(chunk["bin2_id"]).astype(np.int64)
+                    prop = STATE["ctx"].prop if STATE["ctx"] else "C06"
+                    if len(b1):
+                        d1, d2 = np.diff(b1), np.diff(b2)
+                        if np.any(d1 < 0) or np.any((d1 == 0) & (d2 <= 0)):
+                            pfail("merger_iter", prop, "probe:merge-epoch-not-sorted-or-duplicate",
+                                  "a merge epoch is not sorted and duplicate-free", {"bin1": b1[:40], "bin2": b2[:40]})
+                        if b1[0] <= last:
+                            pfail("merger_iter", prop, "probe:merge-epochs-overlap",
+                                  f"merge epoch starts at row {int(b1[0])} but the previous one ended at row {last}")
+                        last = int(b1[-1])
+                        nrec += len(b1)
+                except Exception as e:
+                    pfail("merger_iter", "C06", "probe:merger_iter-error", f"probe error {e!r}")
+                yield chunk
+        it._verif_probe = True
+        STATE["attached"].append((R.CoolerMerger, "__iter__", orig_iter))
+        R.CoolerMerger.__iter__ = it
